@@ -150,6 +150,7 @@ def sig_class(c):
         if k == 'prim': return t['p']
         if k == 'obj': return '%s{%s}' % (t['name'], ','.join('%s:%s%s' % (f['n'], tn(f['t']), '' if (f['min'], f['max']) == (0, 1) else '[%s,%s]' % (f['min'], f['max'])) for f in S.flat_fields(t)))
         if k == 'arr': return 'Array(%s)' % tn(t['of'])
+        if k == 'any': return 'AnyXml'
         return '@' + tn(t['of'])
     return '%s|%s|args=%s|rets=%s' % (c['id'], c['style'],
         ';'.join('%s%s' % (tn(f['t']), '' if (f['min'], f['max']) == (0, 1) else '[%s,%s]' % (f['min'], f['max'])) for f in c['args']),
@@ -194,7 +195,7 @@ def _exchange_chunk(job):
                         if cd is not None:
                             obs['client'] = cd
                         # (zeep reads an empty xsd:string element as None: it cannot be the oracle for '' values)
-                        if fam in ('soap11', 'soap12') and '["leaf", ""]' not in json.dumps(c['rvals']) and not c.get('poly') and not _nil_item(c['vals']) and not _nil_item(c['rvals']):
+                        if fam in ('soap11', 'soap12') and '["leaf", ""]' not in json.dumps(c['rvals']) and not c.get('poly') and c['id'] != 'T10' and not _nil_item(c['vals']) and not _nil_item(c['rvals']):
                             zargs, zd = zeep_decode(w)
                             obs['zeep'] = zd
                             if zargs is not None:
@@ -213,7 +214,7 @@ def run(ctx):
     # same-named classes of different namespaces behind one base (SpynePolyCases.P5): what a type marker names is a
     # (namespace, name) pair resolved in the document, for every element of every request a server sees
     from . import c16
-    cases = cases + [c for c in c16.export(ctx) if c['id'] == 'P5']
+    cases = cases + [c for c in c16.export(ctx) if c['id'] == 'P5'] + S.export(ctx, 'any')
     _CASES = cases
     n = 12
     idx = list(range(len(cases)))
